@@ -38,11 +38,13 @@ class C33(C28):
             if hydro.broken(res) or len(res["ticks"]) != len(case["ticks"]):
                 return 3
             return "(chk33_first %s %s)" % (hydro.g_ticks(case), hydro.g_impl(res))
+        tr = self.translate()
         if case.get("k") == "syntax":
-            return hydro.emit_term(flow, res)
+            return 1 if flow in tr.failed else hydro.emit_term_named(flow, tr.name(flow), res)
         if hydro.broken(res) or len(res["ticks"]) != len(case["ticks"]):
             return 3
-        return "(chk33 %s %s %s %s)" % (KINDS[flow], flow, hydro.g_ticks(case), hydro.g_impl(res))
+        term = "(chk33 %s %s %s %s)" % (KINDS[flow], tr.name(flow), hydro.g_ticks(case), hydro.g_impl(res))
+        return tr.wrap(flow, case, term)
 
     def extra(self):
         e = super().extra()
